@@ -252,6 +252,12 @@ func runUnit(P *Program, rep *Report, c *Contract, fn *ssa.Function, id string, 
 	for k := range e.havocCalls {
 		rep.Assume["callee without contract, havocked (sound): "+k] = true
 	}
+	for k := range e.visibilityFrames {
+		rep.Assume["visibility frame: "+k+" (other package, no contract) cannot write struct fields of the verified function's package and does not call back into it"] = true
+	}
+	for k := range e.uncheckedAssumes {
+		rep.Assume["UNCHECKED assumption written in the contract (ownership/separation): "+k] = true
+	}
 	for k := range e.usedTypeInvs {
 		rep.Assume["type invariant assumed on every object allocated before entry (wf of inputs): "+k] = true
 	}
